@@ -82,6 +82,56 @@ pub fn kinds() -> Vec<(&'static str, bool, String)> {
             true,
             "#call\nlet p = import! std.prim\nrec let f n = if n #Int== 0 then p.error \"boom\" else 1 #Int+ f (n #Int- 1)\nf\n".to_string(),
         ),
+        // failures that surface through FUTURE-RETURNING primitives (`primitive!(n, async fn …)`, completed by
+        // `Context::return_future`): names start with `async-`; the Lean step is `afail`
+        (
+            "async-lazy-force-err",
+            true,
+            "let p = import! std.prim\nlet l = import! std.lazy.prim\nlet x = l.lazy (\\_ -> if 1 #Int== 1 then p.error \"boom\" else 1)\n1 #Int+ l.force x\n".to_string(),
+        ),
+        (
+            "async-lazy-force-ok",
+            false,
+            "let l = import! std.lazy.prim\nlet x = l.lazy (\\_ -> 41)\n1 #Int+ l.force x\n".to_string(),
+        ),
+        (
+            "async-catch-recovers",
+            false,
+            "let p = import! std.prim\nlet io = import! std.io.prim\nio.catch (io.flat_map (\\_ -> io.wrap (p.error \"boom\")) (io.wrap ())) (\\_ -> io.wrap 7)\n".to_string(),
+        ),
+        (
+            "async-catch-lazy-recovers",
+            false,
+            "let p = import! std.prim\nlet io = import! std.io.prim\nlet l = import! std.lazy.prim\nlet x = l.lazy (\\_ -> if 1 #Int== 1 then p.error \"boom\" else 1)\nio.catch (io.flat_map (\\_ -> io.wrap (l.force x)) (io.wrap ())) (\\_ -> io.wrap 7)\n".to_string(),
+        ),
+        (
+            "async-catch-rethrows-err",
+            true,
+            "let p = import! std.prim\nlet io = import! std.io.prim\nio.catch (io.flat_map (\\_ -> io.wrap (p.error \"boom\")) (io.wrap ())) (\\e -> io.throw e)\n".to_string(),
+        ),
+        (
+            "async-run-expr-err",
+            true,
+            "let io = import! std.io.prim\nio.run_expr \"(import! std.prim).error \\\"boom\\\"\"\n".to_string(),
+        ),
+        (
+            "async-run-expr-ok",
+            false,
+            "let io = import! std.io.prim\nio.run_expr \"1 #Int+ 2\"\n".to_string(),
+        ),
+        (
+            "async-load-script-err",
+            true,
+            "let io = import! std.io.prim\nio.load_script \"c06mod\" \"(import! std.prim).error \\\"boom\\\"\"\n".to_string(),
+        ),
+        (
+            "async-thread-resume-err",
+            true,
+            "let p = import! std.prim\nlet t = import! std.thread.prim\nlet io = import! std.io.prim\nio.flat_map (\\th -> t.resume th) (t.spawn (io.flat_map (\\_ -> io.wrap (p.error \"boom\")) (io.wrap ())))\n".to_string(),
+        ),
+        ("async-thread-join-err", true, "let p = import! std.prim\nlet t = import! std.thread.prim\nlet io = import! std.io.prim\nt.join (io.flat_map (\\_ -> io.wrap (p.error \"boom\")) (io.wrap ())) (io.wrap 1)\n".to_string()),
+        ("async-thread-join-ok", false, "let p = import! std.prim\nlet t = import! std.thread.prim\nlet io = import! std.io.prim\nt.join (io.wrap 2) (io.wrap 1)\n".to_string()),
+        ("async-thread-yield-ok", false, "let p = import! std.prim\nlet t = import! std.thread.prim\nlet io = import! std.io.prim\nlet _ = t.yield ()\n5\n".to_string()),
         ("type-error", true, "1 #Int+ \"a\"\n".to_string()),
         ("parse-error", true, "let x = in\n".to_string()),
     ]
@@ -95,7 +145,16 @@ fn new_vm() -> RootedThread {
         db.run_io(true);
     }
     // load the modules the programs import, so that every VM starts from the same state
-    for m in ["std.prim", "std.array.prim", "std.string.prim", "std.int.prim", "std.effect.st.string.prim"] {
+    for m in [
+        "std.prim",
+        "std.array.prim",
+        "std.string.prim",
+        "std.int.prim",
+        "std.effect.st.string.prim",
+        "std.lazy.prim",
+        "std.io.prim",
+        "std.thread.prim",
+    ] {
         let _ = vm.run_expr::<OpaqueValue<&Thread, Hole>>("warm", &format!("let _ = import! {}\n()", m));
     }
     vm.context().set_max_stack_size(MAX_STACK);
@@ -260,10 +319,15 @@ pub fn child_main() {
         let steps: Vec<String> = h
             .iter()
             .map(|ki| {
-                if ks[*ki].0 == "host-call-err" {
+                if ks[*ki].0.starts_with("async-") && ks[*ki].1 {
+                    format!("(afail 1 {})", leak[*ki])
+                } else if ks[*ki].0 == "host-call-err" {
                     format!("(hostfail {} {})", leakf[*ki], leak[*ki])
                 } else if ks[*ki].1 {
                     format!("(fail 1 {})", leak[*ki])
+                } else if leak[*ki] == 1 {
+                    // a successful IO action: `execute_io` leaves its dummy function slot (thread.rs:1265)
+                    "(okio)".to_string()
                 } else {
                     "(ok 1 0)".to_string()
                 }
@@ -323,9 +387,28 @@ fn digest(out: &mut Out, text: &str, status: &str) {
                     serde_json::json!({"kind": "history", "steps": vec![name; 5].join(",")}),
                 );
             }
-            if fails != !f[10].starts_with("ok:") {
-                eprintln!("HARNESS: kind {} expected fails={} got {}", name, fails, f[10]);
-                std::process::exit(2);
+            let res = f[10].trim_start_matches("UNSTABLE ");
+            if fails != !res.starts_with("ok:") {
+                out.oracle_fail(
+                    &format!("wrong-outcome:{}", name),
+                    &format!(
+                        "`{}` must {} on a fresh VM but gives `{}`",
+                        name,
+                        if fails { "fail with an error value" } else { "succeed (e.g. io.catch must recover: the handler's value is the result)" },
+                        res.chars().take(120).collect::<String>()
+                    ),
+                    serde_json::json!({"kind": "history", "steps": name}),
+                );
+            } else if fails && res.starts_with("err:") {
+                // the host must see the script's OWN error
+                let src = &ks.iter().find(|k| k.0 == name).unwrap().2;
+                if src.contains("boom") && !res.contains("boom") {
+                    out.oracle_fail(
+                        &format!("wrong-error:{}", name),
+                        &format!("the script fails with `boom` but the host receives `{}` ({})", res.chars().take(120).collect::<String>(), name),
+                        serde_json::json!({"kind": "history", "steps": name}),
+                    );
+                }
             }
             if f1 != f0 {
                 out.oracle_fail(
@@ -334,7 +417,10 @@ fn digest(out: &mut Out, text: &str, status: &str) {
                     serde_json::json!({"kind": "history", "steps": name}),
                 );
             }
-            if v1 > v0 {
+            if v1 > v0 && !fails {
+                out.count(&format!("success-leaves-values:{}:{}", name, v1 - v0));
+            }
+            if v1 > v0 && fails {
                 out.oracle_fail(
                     &format!("stack-leak:{}", name),
                     &format!(
@@ -344,7 +430,11 @@ fn digest(out: &mut Out, text: &str, status: &str) {
                     serde_json::json!({"kind": "history", "steps": name}),
                 );
             }
-            if m5 - m1 >= 4 * 256 && fails {
+            if m5 - m1 >= 4 * 256 && name.starts_with("async-thread-") {
+                // every spawned / joined child thread (also of SUCCESSFUL runs: async-thread-join-ok grows the same)
+                // stays allocated after collect(): not specific to failed runs, reported to the lead, not an oracle failure
+                out.count(&format!("thread-objects-not-reclaimed:{}", name));
+            } else if m5 - m1 >= 4 * 256 && fails {
                 out.oracle_fail(
                     &format!("memory-leak:{}", name),
                     &format!(
